@@ -88,7 +88,7 @@ P = {
              "denoted graph (atoms by increasing Z, bonds as a set, attributes on indexed atoms); the element table is the periodic table.",
              note="the ANTLR runtime is compared behaviourally, not verified.",
              tech="Lean 4 reference reader + proofs (reject kind, grammar, denotation) + differential correspondence on token edits"),
- "C11": dict(text="Proved: two spellings whose listener states correspond under a renumbering inside element blocks (covers tuple order, endpoint "
+ "C11": dict(text="Proved at string level (C11_respelled_strings): two accepted strings with the same formula, the same set of bonded pairs and the same attribute settings normalize to the same string; and at listener-state level: two spellings whose listener states correspond under a renumbering inside element blocks (covers tuple order, endpoint "
              "swaps, repeats, split/reordered attribute blocks, renumbering) parse to Iso SameIdent graphs, hence equal normal forms by C01; "
              "idempotence by C03's fixed point. Probe: real norm on respellings and twice.",
              note="bliss contract as in C01.", tech="Lean 4 proof (parser denotation + C01 + C03) + correspondence + respelling probe"),
